@@ -37,8 +37,11 @@ static int midx(void *m) { for (int i = 0; i < NMSG; i++) if (m == (void*)&the_m
 static int hidx(void *h) { for (int i = 0; i < NMSG; i++) if (h == (void*)&the_hdr[i]) return i; __CPROVER_assert(0, "world: unknown header object"); return 0; }
 static int tslot(uint32_t fnum) { switch (fnum) { case 34: return T34; case 43: return T43; case 49: return T49; case 56: return T56; case 52: return T52; case 122: return T122; } __CPROVER_assert(0, "world: header tag outside the abstract header"); return 0; }
 uint8_t st_hdr_have(void *mb, uint16_t fnum) { return a_has[hidx(mb)][tslot(fnum)]; }
+static void body_add(void *mb, void *fld);
+static int is_hdr(void *h) { for (int i = 0; i < NMSG; i++) if (h == (void*)&the_hdr[i]) return 1; return 0; }
 uint8_t st_hdr_add(void *mb, void *fld)
 {
+  if (!is_hdr(mb)) { body_add(mb, fld); return 1; }        /* body field of a session-generated message (C18: NewSeqNo, GapFillFlag) */
   int i = hidx(mb); uint32_t fnum = vf_fld_num(fld); a_has[i][tslot(fnum)] = 1;
   if (fnum == 34) a_v34[i] = vf_fld_uint(fld); else if (fnum == 43) a_v43[i] = vf_fld_bool(fld) & 1;
   else if (fnum == 52) a_v52[i] = (int64_t)vf_fld_time(fld); else if (fnum == 122) a_v122[i] = (int64_t)vf_fld_time(fld);
@@ -95,3 +98,12 @@ static void world_init(int with_persist, int pmodel_unused)
   vf_sess_set_ptrs(SESS, &the_conn, with_persist ? (struct S_class_2eFIX8_3a_3aPersister*)&the_pers : 0);
   vf_sess_set_sid(SESS, (uint8_t*)"S", 1, (uint8_t*)"T", 1);
 }
+#ifndef SESSB_C18      /* cut points only the resend world (harness/sessb_c18.h) gives a meaning to: unreachable here */
+static void body_add(void *mb, void *fld) { __CPROVER_assert(0, "world: body field added outside the resend world"); }
+uint8_t st_enforce(void *s, uint32_t seq, void *m) { __CPROVER_assert(0, "world: enforce reached outside the resend world"); return 1; }
+uint8_t st_get_begin(void *mb, void *fld) { __CPROVER_assert(0, "world: get<BeginSeqNo> reached outside the resend world"); return 0; }
+uint8_t st_get_end(void *mb, void *fld) { __CPROVER_assert(0, "world: get<EndSeqNo> reached outside the resend world"); return 0; }
+void *st_create_msg(void *s, void *type) { __CPROVER_assert(0, "world: create_msg reached outside the resend world"); return 0; }
+struct S_class_2eFIX8_3a_3aMessage *x__ZN4FIX87Message7factoryERKNS_10F8MetaCntxERKNSt7__cxx1112basic_stringIcSt11char_traitsIcESaIcEEEbb(struct S_struct_2eFIX8_3a_3aF8MetaCntx *c, struct S_class_2estd_3a_3a__cxx11_3a_3abasic_string *from, uint8_t a, uint8_t b) { __CPROVER_assert(0, "world: Message::factory reached outside the resend world"); return 0; }
+uint32_t x_vf_rec_range(uint8_t *self, uint32_t from, uint32_t to, uint8_t *sess) { __CPROVER_assert(0, "world: range get reached outside the resend world"); return 0; }
+#endif
